@@ -269,6 +269,53 @@ func (s *Sim) directAdd(id uint64) error {
 	return nil
 }
 
+// tableField finds one of the server's two tables: by its name in the pinned source, and - should the unexported
+// field have been renamed - by its type (the certificate table is the map with pointer values, the cache of hidden
+// upstream certificates the map with empty-struct values).
+func tableField(v reflect.Value, name string) reflect.Value {
+	if f := v.FieldByName(name); f.IsValid() && f.Kind() == reflect.Map {
+		return f
+	}
+	var found reflect.Value
+	n := 0
+	for i := 0; i < v.NumField(); i++ {
+		f := v.Field(i)
+		if f.Kind() != reflect.Map {
+			continue
+		}
+		el := f.Type().Elem()
+		isCache := el.Kind() == reflect.Struct && el.NumField() == 0
+		isCerts := el.Kind() == reflect.Ptr
+		if (name == "upstreamSSHCACertCache" && isCache) || (name == "certs" && isCerts) {
+			found = f
+			n++
+		}
+	}
+	if n == 1 {
+		return found
+	}
+	return reflect.Value{}
+}
+
+// lockedField finds the lock flag: by name, else the only bool field whose name mentions "lock".
+func lockedField(v reflect.Value) reflect.Value {
+	if f := v.FieldByName("locked"); f.IsValid() && f.Kind() == reflect.Bool {
+		return f
+	}
+	var found reflect.Value
+	n := 0
+	for i := 0; i < v.NumField(); i++ {
+		if v.Field(i).Kind() == reflect.Bool && strings.Contains(strings.ToLower(v.Type().Field(i).Name), "lock") {
+			found = v.Field(i)
+			n++
+		}
+	}
+	if n == 1 {
+		return found
+	}
+	return reflect.Value{}
+}
+
 // Observe reads the state: the shim's tables through reflection (read-only),
 // the scripted agent and the proxy directly.
 func (s *Sim) Observe() Obs {
@@ -277,7 +324,7 @@ func (s *Sim) Observe() Obs {
 		v := reflect.ValueOf(s.Shim).Elem()
 		hashes := func(field string) []uint64 {
 			var out []uint64
-			m := v.FieldByName(field)
+			m := tableField(v, field)
 			if !m.IsValid() || m.Kind() != reflect.Map {
 				s.Bad = append(s.Bad, "cannot observe Server."+field)
 				return nil
@@ -299,7 +346,7 @@ func (s *Sim) Observe() Obs {
 			return out
 		}
 		o.Mem, o.Cache = hashes("certs"), hashes("upstreamSSHCACertCache")
-		if f := v.FieldByName("locked"); f.IsValid() && f.Kind() == reflect.Bool {
+		if f := lockedField(v); f.IsValid() && f.Kind() == reflect.Bool {
 			o.Locked = f.Bool()
 		} else {
 			s.Bad = append(s.Bad, "cannot observe Server.locked")
